@@ -20,7 +20,7 @@ PROPS = {
         "engine": "wdsim", "level": "exploration",
         "quick": {"max_runs": 100000000, "budget_s": 40, "recheck": 25},
         "thorough": {"max_runs": 1000000000, "budget_s": 900, "recheck": 50},
-        "rule": "one evaluation = one seeded run: a multi-client sequential history of 3-40 requests against webdav.Handler{LocalFileSystem} on tmpfs, every response and the on-disk tree compared with the RFC 4918 resource-tree model after each request. Non-trivial and distinct = distinct (abstract tree shape, request class) pairs in which the request addressed an existing resource or changed the tree.",
+        "rule": "one evaluation = one seeded run: a multi-client sequential history of 3-40 requests against webdav.Handler{LocalFileSystem} on tmpfs, every response and the on-disk tree compared with the RFC 4918 resource-tree model after each request. Non-trivial and distinct = distinct (abstract tree shape = number of collections and files per depth, request class) pairs in which the request addressed an existing resource or changed the tree (the per-worker set saturates at 250000 entries: a lower bound beyond that).",
         "real_vs_stub": WD_REAL,
         "assumptions": COMMON_ASSUME + ["where the RFC leaves a choice (several refusal reasons at once, 200 vs 204, root as target, letter case of Depth/Overwrite) the model accepts every allowed answer"],
     },
@@ -46,7 +46,7 @@ PROPS["C03"] = {
     "engine": "wdsim", "level": "exploration",
     "quick": {"max_runs": 100000000, "budget_s": 40, "recheck": 25},
     "thorough": {"max_runs": 1000000000, "budget_s": 900, "recheck": 50},
-    "rule": "one evaluation = one seeded run: a history whose request-targets and Destination values come from a traversal grammar (dot-dot, encoded dots/slashes/backslashes, NUL, overlong UTF-8, <root>-evil prefix twins, absolute host paths of canaries, very long segments, absolute-URL and //authority forms, random percent-encoded bytes) crossed with every method, against a root nested in a sandbox with canaries next to and above it. Monitors: every path argument of every disk-seam call lies under the root; canaries and the outside listing unchanged; hrefs inside the namespace and addressing what they describe; unmappable paths (NUL) answered 4xx. Non-trivial and distinct = distinct (method, hostile target or Destination) whose request reached the disk seam.",
+    "rule": "one evaluation = one seeded run: a history whose request-targets and Destination values come from a traversal grammar (dot-dot, encoded dots/slashes/backslashes, NUL, overlong UTF-8, <root>-evil prefix twins, absolute host paths of canaries, very long segments, absolute-URL and //authority forms, random percent-encoded bytes) crossed with every method, against a root nested in a sandbox with canaries next to and above it. Monitors: every path argument of every disk-seam call lies under the root; canaries and the outside listing unchanged; hrefs inside the namespace and addressing what they describe; unmappable paths (NUL) answered 4xx. Non-trivial and distinct = distinct (method, channel, set of traversal devices used: dot-dot, encoded dots/slashes, backslash, NUL, prefix twin, sibling, authority form, absolute host path, ...) whose request reached the disk seam.",
     "real_vs_stub": WD_REAL,
     "assumptions": COMMON_ASSUME + ["calls whose path leaves the sandbox are blocked at the seam (and reported) so a breach can never touch the host", "no symlinks inside the served tree (WebDAV cannot create them)"],
 }
